@@ -24,11 +24,14 @@ POOL = [
     ("groups-empty", "Capture(Indefinite('a'), 'e') + Capture('b')", True),
     # text that the printable export (get_pattern / __repr__, which compile() goes through) has to carry unchanged
     ("backslash-quote", "Pregex(chr(92) + chr(39)) + Optional('a')", False),
+    # a capturing group right after an escaped backslash / a class holding a bare parenthesis (textual group counting goes wrong here)
+    ("groups-after-backslash", "Backslash() + Capture(AnyLetter())", True),
+    ("class-paren", "AnyFrom('(', '<') + Optional('a')", False),
 ]
 # sources executed concretely with the real re in addition to the symbolic run (CrossHair's match model lacks e.g. the real
 # lastindex semantics and mishandles the empty subject; these points keep such blind spots covered)
-SRC_POINTS = ["", "a", "b", "ab", "ba", "abc", "aab", "a\nb", "ab ab", "xaby", "\\'a", "x'a\\'"]
-NONNEST = ("groups-mixed", "groups-optional", "groups-alternative", "groups-empty")
+SRC_POINTS = ["", "a", "b", "ab", "ba", "abc", "aab", "a\nb", "ab ab", "xaby", "\\'a", "x'a\\'", "\\a", "x\\ab\\c", "(a", "a(a<"]
+NONNEST = ("groups-mixed", "groups-optional", "groups-alternative", "groups-empty", "groups-after-backslash")
 
 HIST = """for op in OPS:
     if op == 1:
@@ -131,7 +134,7 @@ def c12_cases(tier):
 def c13_cases(tier):
     cs = []
     pool = POOL if tier == "thorough" else [x for x in POOL if x[0] in ("literal", "prefix-alternation", "empty-capable", "word-boundary", "line-start", "any-newline",
-                                                                        "groups-mixed", "groups-empty", "groups-alternative")]
+                                                                        "groups-mixed", "groups-empty", "groups-alternative", "groups-after-backslash", "class-paren")]
     for tag, expr, grp in pool:
         body = ("p = %s\n" % expr) + (
             "d, gi = direct(p, src)\n"
